@@ -172,16 +172,22 @@ type ChainCfg struct {
 	GenesisSigner string
 	G0            uint64
 	Epoch         uint64 // clique only
+	Sprint        uint64 // bor only: 0 = no sprint boundary in reach
+	SpanEnd       uint64 // bor only: the stored Heimdall span is [G0, SpanEnd] with producers Sets[1]
 }
 
 var chainCfgs = map[string]ChainCfg{
-	"A": {Sets: [][]string{{"a", "b", "c"}, {"b", "c", "d"}, {"d", "a"}}, GenesisSigner: "c", G0: 200},
-	"B": {Sets: [][]string{{"a", "b", "c", "d"}, {"a", "b", "c", "d", "e"}, {"e"}}, GenesisSigner: "c", G0: 200},
-	"F": {Sets: [][]string{{"a", "b", "c"}, {"a", "b", "c"}}, GenesisSigner: "c", G0: 200},
-	"G": {Sets: [][]string{{"a", "b", "c", "d", "e"}, {"a", "b"}, {"a", "b", "c", "d"}}, GenesisSigner: "a", G0: 200},
-	"P": {Sets: [][]string{{"a", "b", "c"}, {"a", "b", "c"}, {"a", "b", "d"}}, GenesisSigner: "b", G0: 200},
-	"C": {Sets: [][]string{{"a", "b", "c"}, {"a", "b", "c"}, {"a", "b", "d"}}, GenesisSigner: "c", G0: 200, Epoch: 4},
-	"D": {Sets: [][]string{{"a", "b", "c", "d", "e"}, {"a", "b", "c", "d", "e"}}, GenesisSigner: "c", G0: 200, Epoch: 4},
+	"A":    {Sets: [][]string{{"a", "b", "c"}, {"b", "c", "d"}, {"d", "a"}}, GenesisSigner: "c", G0: 200},
+	"B":    {Sets: [][]string{{"a", "b", "c", "d"}, {"a", "b", "c", "d", "e"}, {"e"}}, GenesisSigner: "c", G0: 200},
+	"F":    {Sets: [][]string{{"a", "b", "c"}, {"a", "b", "c"}}, GenesisSigner: "c", G0: 200},
+	"G":    {Sets: [][]string{{"a", "b", "c", "d", "e"}, {"a", "b"}, {"a", "b", "c", "d"}}, GenesisSigner: "a", G0: 200},
+	"P":    {Sets: [][]string{{"a", "b", "c"}, {"a", "b", "c"}, {"a", "b", "d"}}, GenesisSigner: "b", G0: 200},
+	"S202": {Sets: [][]string{{"a", "b", "c"}, {"a", "b", "c"}, {"a", "b", "d"}}, GenesisSigner: "b", G0: 200, Sprint: 4, SpanEnd: 202},
+	"S203": {Sets: [][]string{{"a", "b", "c"}, {"a", "b", "c"}, {"a", "b", "d"}}, GenesisSigner: "b", G0: 200, Sprint: 4, SpanEnd: 203},
+	"S204": {Sets: [][]string{{"a", "b", "c"}, {"a", "b", "c"}, {"a", "b", "d"}}, GenesisSigner: "b", G0: 200, Sprint: 4, SpanEnd: 204},
+	"S207": {Sets: [][]string{{"a", "b", "c"}, {"a", "b", "c"}, {"a", "b", "d"}}, GenesisSigner: "b", G0: 200, Sprint: 4, SpanEnd: 207},
+	"C":    {Sets: [][]string{{"a", "b", "c"}, {"a", "b", "c"}, {"a", "b", "d"}}, GenesisSigner: "c", G0: 200, Epoch: 4},
+	"D":    {Sets: [][]string{{"a", "b", "c", "d", "e"}, {"a", "b", "c", "d", "e"}}, GenesisSigner: "c", G0: 200, Epoch: 4},
 }
 
 var keyNames = []string{"a", "b", "c", "d", "e", "x", "y"}
@@ -274,8 +280,12 @@ func NewWorldCCM(r *Router, cfg ChainCfg, seed uint64, wait uint64, genesisRoot 
 	if epoch == 0 {
 		epoch = 100
 	}
+	sprint := borSprint
+	if cfg.Sprint != 0 {
+		sprint = cfg.Sprint
+	}
 	extra, _ := json.Marshal(map[string]interface{}{"ChainID": evmChainID, "Period": periodSecs, "Epoch": epoch,
-		"Sprint": borSprint, "ProducerDelay": borProducerDelay, "BackupMultiplier": borBackup, "HeimdallPolyChainID": 15})
+		"Sprint": sprint, "ProducerDelay": borProducerDelay, "BackupMultiplier": borBackup, "HeimdallPolyChainID": 15})
 	ns := w.SB.Service(nativekit.Tx(), nil)
 	vio.Must(scm.PutSideChain(ns, &scm.SideChain{ChainId: sideChainID, Router: r.ID, Name: r.Name, BlocksToWait: wait,
 		CCMCAddress: w.CCMC.Bytes(), ExtraInfo: extra}))
@@ -316,6 +326,9 @@ func NewWorldCCM(r *Router, cfg ChainCfg, seed uint64, wait uint64, genesisRoot 
 	p.Serialization(sink)
 	if _, _, err := w.SB.Call(hs.SyncGenesisHeader, nativekit.Tx(w.Op.Address), sink.Bytes()); err != nil {
 		vio.Fatal("genesis install failed for %s: %v", r.Name, err)
+	}
+	if r.Family == "bor" && cfg.SpanEnd != 0 {
+		w.seedBorSpan()
 	}
 	return w
 }
